@@ -105,3 +105,46 @@ def small_space(max_members=4, max_topics=3, max_parts=4, with_missing=True):
             for nm in range(1, max_members + 1):
                 for subs in itertools.product(subsets, repeat=nm):
                     yield parts, [(m, list(s)) for m, s in enumerate(subs)]
+
+
+# ---------------------------------------------------------------- sticky port tie (C14 / C15)
+ORACLE_LOG = []
+
+
+def install_oracle_recorder(A):
+    """wrap PartitionMovements.get_partition_to_be_moved from outside: whenever it picks from the
+    set `partition_movements_by_topic[topic][reverse_pair]` (the one iteration-order dependent
+    choice of the algorithm) record what it picked, so the Lean port can replay the choice"""
+    import importlib
+    pm = importlib.import_module("aiokafka.coordinator.assignors.sticky.partition_movements")
+    PM = pm.PartitionMovements
+    if getattr(PM, "_akverif_wrapped", False):
+        return
+    orig = PM.get_partition_to_be_moved
+
+    def wrapped(self, partition, old_consumer, new_consumer):
+        r = orig(self, partition, old_consumer, new_consumer)
+        try:
+            if partition.topic in self.partition_movements_by_topic:
+                oc = old_consumer
+                if partition in self.partition_movements:
+                    oc = self.partition_movements[partition].src_member_id
+                if pm.ConsumerPair(new_consumer, oc) in self.partition_movements_by_topic[partition.topic]:
+                    ORACLE_LOG.append((int(r.topic[1:]), r.partition))
+        except Exception:  # noqa
+            pass
+        return r
+
+    PM.get_partition_to_be_moved = wrapped
+    PM._akverif_wrapped = True
+
+
+def enc_tps(lst):
+    return ",".join(f"{t}:{p}" for t, p in lst) if lst else "-"
+
+
+def sticky_line(parts, members, prev_out):
+    """the line for the Lean port: same input, previous assignment of the present members, and the
+    recorded oracle (call AFTER running the real assignor for this input)"""
+    prev = "-" if not prev_out else enc_output([(m, items) for m, items in prev_out if any(m == mm for mm, _ in members)])
+    return f"sticky assign {enc_parts(parts)} {enc_parts(members)} {prev} {enc_tps(ORACLE_LOG)}"
